@@ -255,8 +255,12 @@ class Ctx:
         ov = os.path.join(self.work, "overlay_%s.json" % test)
         json.dump({"Replace": overlay}, open(ov, "w"), indent=1)
         modfile = os.path.join(self.work, "go.mod")
-        shutil.copy(os.path.join(REPO, "go.mod"), modfile)
-        shutil.copy(os.path.join(REPO, "go.sum"), os.path.join(self.work, "go.sum"))
+        # atomically: a check may run several harnesses in parallel (C19 runs four) and a `go test` that reads a
+        # half-written go.mod fails with "missing module declaration"
+        for name in ("go.mod", "go.sum"):
+            tmpcopy = os.path.join(self.work, ".%s.%s.tmp" % (name, test))
+            shutil.copy(os.path.join(REPO, name), tmpcopy)
+            os.replace(tmpcopy, os.path.join(self.work, name))
         e = dict(GOENV)
         e.update({"VERIF_OUT": self.work, "VERIF_SEED": str(self.seed), "VERIF_TIER": self.tier,
                   "VERIF_DIR": VERIF})
